@@ -251,10 +251,13 @@ def _decide(test, path):
     if isinstance(test, ast.Dict):
         return bool(test.keys)
     # a decision already taken on this path over the same substituted test
-    t = src(test)
+    # (x is None / x is not None and the like are one test, two polarities)
+    a, ap = _atom(test, True)
+    t = src(a)
     for _n, pol, prev in path.conds:
-        if src(prev) == t:
-            return pol
+        b, bp = _atom(prev, True)
+        if src(b) == t:
+            return pol if ap == bp else (not pol)
     return None
 
 
